@@ -377,7 +377,7 @@ def escape (k : Esc) : List Nat → List Nat
 inductive Piece where
   /-- a numeric token as formatted -/
   | num (tok : List Nat)
-  /-- `/` + name bytes, raw -/
+  /-- `/` + name bytes through `escape_pdf_name_bytes` (`write_name_operand`, `escape_tag`) -/
   | name (bs : List Nat)
   /-- `(` + escaped + `)` -/
   | lit (k : Esc) (bs : List Nat)
@@ -398,7 +398,7 @@ inductive Piece where
 
 def bytesOf : Piece → List Nat
   | .num t => t
-  | .name bs => 47 :: bs
+  | .name bs => 47 :: escapeName bs
   | .lit k bs => 40 :: (escape k bs ++ [41])
   | .hex bs => 60 :: (hexBytesUpper bs ++ [62])
   | .kw bs => bs
@@ -446,6 +446,12 @@ def rawNumPiece (x : Flt) : Piece :=
   | .fin _ _ _ => .num (fmtFixedRaw 3 x)
   | .inf true => .junk (fmtFixedRaw 3 x)
   | _ => .kw (fmtFixedRaw 3 x)
+
+/-- the `Raw` bytes of `clip_rect` BEFORE the repair (`{:.3}` without `finite_or_zero`): kept for
+    the regression statements `C21_old_witness_clip_rect_*` -/
+def clipRectPiecesOld (x y w h : Flt) : List Piece :=
+  [rawNumPiece x, .sp, rawNumPiece y, .sp, rawNumPiece w, .sp, rawNumPiece h, .sp, .kw [114, 101], .nl,
+   .kw [87], .nl, .kw [110], .nl]
 
 def kMCID : List Nat := [77, 67, 73, 68]
 def kActualText : List Nat := [65, 99, 116, 117, 97, 108, 84, 101, 120, 116]
@@ -501,7 +507,7 @@ def pieces (fmt : Fmt) : Op → List Piece
   | .paintShading n => [.name n, .sp, .kw [115, 104], .nl]
   | .comment t => [.comment t, .nl]
   | .rawClipRect x y w h =>
-    [rawNumPiece x, .sp, rawNumPiece y, .sp, rawNumPiece w, .sp, rawNumPiece h, .sp, .kw [114, 101], .nl,
+    [.num (fmt 3 x), .sp, .num (fmt 3 y), .sp, .num (fmt 3 w), .sp, .num (fmt 3 h), .sp, .kw [114, 101], .nl,
      .kw [87], .nl, .kw [110], .nl]
   | .rawBdc tag mcid =>
     [.name tag, .sp, .dictOpen, .name kMCID, .sp, .num (showNat mcid), .dictClose, .sp, .kw [66, 68, 67], .nl]
@@ -588,7 +594,7 @@ def canon (fmt : Fmt) : Op → List Parsed
   | .paintShading n => [⟨[115, 104], [.name n]⟩]
   | .comment _ => []
   | .rawClipRect x y w h =>
-    [⟨[114, 101], [numArg (fmtFixedRaw 3 x), numArg (fmtFixedRaw 3 y), numArg (fmtFixedRaw 3 w), numArg (fmtFixedRaw 3 h)]⟩,
+    [⟨[114, 101], [numArg (fmt 3 x), numArg (fmt 3 y), numArg (fmt 3 w), numArg (fmt 3 h)]⟩,
      ⟨[87], []⟩, ⟨[110], []⟩]
   | .rawBdc tag mcid => [⟨[66, 68, 67], [.name tag, .propsInline [(kMCID, .int (Int.ofNat mcid))]]⟩]
   | .rawBdcActual tag mcid u =>
